@@ -3,7 +3,6 @@
 # writes lines "<mutant> <check> <exit>" to $OUT (default /tmp/mutant_matrix.txt); PAR mutants at a time
 OUT=${OUT:-/tmp/mutant_matrix.txt}
 PAR=${PAR:-3}
-: > "$OUT"
 one() {
   d="$1"; name=$(basename "$d"); prop=$(echo "$name" | sed 's/^\(C[0-9][0-9]\).*/\1/')
   for chk in $prop $(cat "$d/fallback" 2>/dev/null); do
@@ -14,5 +13,6 @@ one() {
   done
 }
 if [ -n "$1" ]; then one "$1"; exit 0; fi
+: > "$OUT"
 ls -d /verif/seeded/*/ | sed 's:/$::' | OUT="$OUT" xargs -P "$PAR" -n 1 "$0"
 echo done >> "$OUT"
